@@ -592,7 +592,7 @@ func checkC03(c *Ctx) {
 					if fa, ok := st.Addr.(*ssa.FieldAddr); ok {
 						if al, ok := fa.X.(*ssa.Alloc); ok {
 							identified := guardedM(f, st, func(cnd string, pol bool) bool {
-								return !pol && strings.Contains(cnd, "findMarkMac(") && strings.HasPrefix(cnd, "(-1 == ")
+								return !pol && strings.Contains(cnd, "findMarkMac") && strings.HasPrefix(cnd, "(-1 == ")
 							})
 							onlyNil := true
 							for _, r2 := range *al.Referrers() {
@@ -642,7 +642,7 @@ func checkC03(c *Ctx) {
 							r.Check(isC && cst.Value == nil, "C03.1", fnName(f)+": wrapped connection returned only with a nil error", y.Pos(), fnName(f), "return reg, PrependToConn(c, data), nil", "the wrapped connection is returned together with an error")
 						case *ssa.Call:
 							g := guardedM(f, y, func(cnd string, pol bool) bool {
-								return !pol && strings.Contains(cnd, "findMarkMac(") && strings.HasPrefix(cnd, "(-1 == ")
+								return !pol && strings.Contains(cnd, "findMarkMac") && strings.HasPrefix(cnd, "(-1 == ")
 							})
 							r.Check(g, "C03.1", fnName(f)+": connection handed to "+calleeShort(&y.Call)+" only after the mark matched", y.Pos(), fnName(f), "guarded by findMarkMac(...) != -1",
 								"the connection is handed to the handshake code before the transport has positively identified the client (mark not matched): the station may answer a probe")
